@@ -17,6 +17,8 @@
 (*     cprim_anc2 an invariant of Cp00, the parent of Cp0 (chain Cp00 <- Cp0 <- Cp); the three   *)
 (*                primitives may be DECLARED in any order (shape field cpo: 0 parents first,    *)
 (*                1 Cp between its ancestors, 2 children first) - the meta-model is only parsed  *)
+(* Whenever a constrained primitive is used, another class (Twin, declared before the chain)   *)
+(* has a property of the same primitive type without class-level constraints.                   *)
 (* and at a TARGET: "val" (the value of x itself: its length / its text / its number of items)  *)
 (* or "item" (every item of the list x; only constrained primitives constrain items).           *)
 (*                                                                                              *)
@@ -158,6 +160,6 @@ ScenarioFeatures(sc) ==
     \cup (IF Multi(sc) /\ \E t \in AllTrees(sc) : HasUnboundedDot(t) THEN {"multi_dotrep"} ELSE {})
     \cup (IF Multi(sc) /\ \E t \in AllTrees(sc) : HasNegSet(t) THEN {"multi_negset"} ELSE {})
     \cup (IF Multi(sc) /\ \E t \in AllTrees(sc) : \E p \in Lits(t) : p[2] = "esc" THEN {"multi_esc"} ELSE {})
-FeatureOrder == <<"enc_meta", "enc_set_meta", "uni_esc", "esc_dollar", "lit_bs", "multi", "multi_dotrep", "multi_negset", "multi_esc">>
+FeatureOrder == <<"enc_meta", "enc_set_meta", "uni_esc", "esc_dollar", "lit_bs", "del_char", "multi", "multi_dotrep", "multi_negset", "multi_esc">>
 FeatureSeq(sc) == SelectSeq(FeatureOrder, LAMBDA f : f \in ScenarioFeatures(sc))
 =============================================================================
